@@ -110,7 +110,7 @@ CHECKS = {
              "residual tolerance only for sub-FLOAT_ACCURACY dust). Node classes with theorems of their own: Demand / ResidentialDemand "
              "(Demand.v: declared accounts = arc records), Sewer and QueueGroundwater discharge (SewerLaws.v), whole networks of "
              "junction / store / river / catchment nodes (NetLaws.v, water), the treatment step and WWTW.calculate_discharge (WtwLaws.v); "
-             "families net, demand, tarea, wtw tie them.",
+             "the pervious surface (LandLaws.v: IHACRES creates and loses no water); families net, demand, tarea, wtw, land tie them.",
         design="5/C01", tech="Coq proof for junction/store/arc building blocks + exact-arithmetic whole-model balance monitor (partial)",
         note=NOTE + "Node classes beyond junction/store/arc are modelled only by the implementation monitor at this stage."),
     "C03": dict(
@@ -191,7 +191,8 @@ CHECKS = {
              "of these functions and of the catchment routing / abstraction model. Whole models (incl. pervious surfaces, which "
              "are not modelled in Coq): monitor with an independent evaluation of the configuration data (partial for those); deposition "
              "read from monthly surface forcing under Model.run over date lists that are not contiguous days (same month in consecutive "
-             "years, month and year ends, gaps): declared = value for the month of the timestep x area.",
+             "years, month and year ends, gaps): declared = value for the month of the timestep x area. Pervious surfaces are now modelled "
+             "(LandV.v, family land) with a theorem for their rain and evaporation bounds; demand nodes declare what they generate (Demand.v).",
         design="5/C17", tech="Coq proof over hand-written boundary-function models + exact correspondence + independent-oracle whole-model monitor",
         note=NOTE),
     "C19": dict(
